@@ -16,6 +16,7 @@ sys.path.insert(0, os.path.join(os.path.dirname(os.path.abspath(__file__)), ".."
 import vlib, shimlib
 
 K_DESYNC = "raw/long-lived-handle/read-past-partial-sample-desynchronises"
+K_SIEHELD = "sie/long-lived-handle/frames-differ"
 K_GZHELD = "gzip/long-lived-handle/frame-count-from-new-file-data-from-old-descriptor"
 SPF_A = 3
 
@@ -27,9 +28,8 @@ def make_dirfile(d, enc, fa=2, fb=2):
     db = bytes(i & 0xff for i in range(fb))
     if enc == "gzip":
         open(os.path.join(d, "a.gz"), "wb").write(gzip.compress(da)); open(os.path.join(d, "b.gz"), "wb").write(gzip.compress(db))
-    elif enc == "text":
-        open(os.path.join(d, "a.txt"), "w").write("".join("%d\n" % (1000 + i) for i in range(fa * SPF_A)))
-        open(os.path.join(d, "b.txt"), "w").write("".join("%d\n" % (i & 0xff) for i in range(fb)))
+    elif enc in ("text", "sie"):
+        pass          # pre-populated through the library itself (see prepopulate)
     else:
         open(os.path.join(d, "a"), "wb").write(da); open(os.path.join(d, "b"), "wb").write(db)
 
@@ -80,7 +80,7 @@ def main():
     chk.assumptions += [
         "observation points = system-call boundaries of the writer (the reader runs a complete pass while the writer is stopped); finer interleavings rely on write/rename atomicity",
         "reference field a: INT16, 3 samples per frame; second field b: UINT8; initial 2 frames",
-        "text and sie encodings are not exercised (cut for time); gzip is exercised through the library writer only",
+        "gzip, text and sie are exercised through the library writer only (their files are pre-populated through the library too)",
     ]
     try:
         impl = vlib.build_impl()
@@ -117,7 +117,9 @@ def main():
             ("lib", "none", ["write", None, "p:a:4", "p:b:1", "p:a:5", "s", "p:a:3", "p:b:2", "m", "p:a:6", "f", "p:a:2", "p:b:4", "p:a:1"]),
             ("lib", "none", ["write", None] + lib_ops(10, ["s", "f", "m", "c"])),
             ("lib", "gzip", ["write", None, "p:a:6", "p:b:2", "s", "p:a:3", "f", "p:a:3", "p:b:1", "c", "p:a:6"]),
-            ("lib", "gzip", ["write", None] + lib_ops(6, ["s", "f", "c"]))]
+            ("lib", "gzip", ["write", None] + lib_ops(6, ["s", "f", "c"])),
+            ("lib", "text", ["write", None, "p:a:4", "p:b:1", "s", "p:a:5", "p:b:2", "f", "p:a:3", "m", "p:a:6"]),
+            ("lib", "sie", ["write", None, "p:a:4", "p:b:1", "s", "p:a:5", "p:b:2", "f", "p:a:3", "m", "p:a:6"])]
     if chk.thorough:
         for _ in range(12):
             scen.append(("raw-foreign", "none", ["rawwrite", None, "2", "1000", "6", str(rng.choice([18, 30, 45]))] + [str(c) for c in rand_chunks(9)]))
@@ -129,6 +131,8 @@ def main():
     for sid, (kind, enc, cmd) in enumerate(scen):
         d = os.path.join(base, "s%d" % sid, "df")
         make_dirfile(d, enc)
+        if enc in ("text", "sie"):
+            vlib.sh([exe, "write", d, "p:a:%d" % (2 * SPF_A), "p:b:2"], timeout=60)
         counts["by_kind"][kind + "/" + enc] = counts["by_kind"].get(kind + "/" + enc, 0) + 1
         cmd = [exe] + [(os.path.join(d, "a") if cmd[0] == "rawwrite" else d) if c is None else c for c in cmd]
         desc = {"writer": kind, "encoding": enc, "command": " ".join(cmd[1:]).replace(d, "DIR"),
@@ -143,7 +147,7 @@ def main():
             for tag in ("fresh", "held", "greedy"):
                 reader.stdin.write((tag + "\n").encode()); reader.stdin.flush()
                 res[tag] = reader.stdout.readline().decode()
-            fa = os.path.join(d, "a" if enc == "none" else "a.gz")
+            fa = os.path.join(d, {"none": "a", "gzip": "a.gz", "text": "a.txt", "sie": "a.sie"}[enc])
             sz = os.path.getsize(fa) if os.path.exists(fa) else -1
             obs.append((label, parse_pass(res["fresh"]), parse_pass(res["held"]), parse_greedy(res["greedy"]), sz))
         stops = []
@@ -185,11 +189,12 @@ def main():
                 if p["nf"] > 0:
                     want = [1000 + i for i in range(p["nf"] * SPF_A)]
                     if a is None or a["e"] != 0 or a["v"] != want:
-                        spec_bad.append((K_GZHELD if (enc == "gzip" and tag == "held" and a is not None and a["e"] == 0 and a["v"] == want[:len(a["v"])]) else "%s/%s/%s-frames-differ" % (kind, enc, tag),
+                        spec_bad.append((K_SIEHELD if (enc == "sie" and tag == "held" and a is not None and a["e"] == 0) else K_GZHELD if (enc == "gzip" and tag == "held" and a is not None and a["e"] == 0 and a["v"] == want[:len(a["v"])]) else "%s/%s/%s-frames-differ" % (kind, enc, tag),
                                          "%s reader %s: %d frames reported but reading them gives %s (error %s) instead of the %d samples the writer wrote" % (
                                              tag, label, p["nf"], (a or {}).get("v", [])[:12], (a or {}).get("e"), len(want)), dict(desc, at=label, kind="impl-vs-spec", seen=p["raw"][:600])))
                     b = p["fields"].get("b")
-                    if b is not None and b["v"] != [i & 0xff for i in range(len(b["v"]))]:
+                    # (sie pads a read beyond the last record, so a lagging second field cannot be judged there)
+                    if enc != "sie" and b is not None and b["v"] != [i & 0xff for i in range(len(b["v"]))]:
                         spec_bad.append(("%s/%s/%s-second-field-differs" % (kind, enc, tag), "%s reader %s: field b returns %s" % (tag, label, b["v"][:12]), dict(desc, at=label, kind="impl-vs-spec")))
             if gr.get("bad") or gr["e"] != 0:
                 spec_bad.append(("%s/%s/greedy-reader-fails" % (kind, enc), "sequential reader %s: %s" % (label, gr), dict(desc, at=label, kind="impl-vs-spec")))
